@@ -52,6 +52,10 @@ type Contract struct {
 	AllocBound   *SpecExpr // every make([]T, n) in the function must have n <= this bound (resource obligation)
 	MayPanic     bool      // the (trusted) function can panic on some inputs: callers must recover
 	Unclaimed    []Unclaimed
+	AssertAt     []AssertAt
+	Sequential   bool
+	Use          []string  // axiom groups
+	PanicsIff    *SpecExpr // the function panics exactly when this holds of its entry state (documented panic)
 	ChanSafe     bool
 	ChanSafeTags []string
 	Trusted      bool
@@ -66,6 +70,13 @@ type Contract struct {
 
 // Unclaimed names automatic obligations that are generated and reported but not part of the claim.
 type Unclaimed struct{ Kind, Sub, Reason string }
+
+// AssertAt is a ghost assertion placed before the call/send instructions of the matching source line.
+type AssertAt struct {
+	What string // callee name, or "send"
+	Sub  string
+	Spec *SpecExpr
+}
 
 type SpecFn struct {
 	Name string
@@ -648,6 +659,35 @@ func (db *ContractDB) parseLines(lines []srcLine, pkg *types.Package, trusted bo
 					u.Reason = strings.TrimSpace(parts[1])
 				}
 				cur.Unclaimed = append(cur.Unclaimed, u)
+			case "assert_at":
+				// assert_at <callee name | send> "<substring of source line>": expr
+				m := regexp.MustCompile(`^(\w+)\s+"([^"]*)"\s*:\s*(.*)$`).FindStringSubmatch(rest)
+				if m == nil {
+					db.errf("%s: bad assert_at", src)
+					continue
+				}
+				se, err := parseSpec(m[3], tags, src)
+				if err != nil {
+					db.errf("%v", err)
+					continue
+				}
+				cur.AssertAt = append(cur.AssertAt, AssertAt{What: m[1], Sub: m[2], Spec: se})
+			case "sequential":
+				// Lock() in this function does not havoc the state: callers guarantee that nobody else
+				// mutates the guarded object meanwhile (rounds run under the handler mutex)
+				cur.Sequential = true
+			case "use":
+				// use <axiom group>, ...: include the axioms tagged with these groups
+				for _, g := range strings.Split(rest, ",") {
+					cur.Use = append(cur.Use, strings.TrimSpace(g))
+				}
+			case "panics_iff":
+				se, err := parseSpec(rest, tags, src)
+				if err != nil {
+					db.errf("%v", err)
+					continue
+				}
+				cur.PanicsIff = se
 			case "maypanic":
 				cur.MayPanic = true
 			case "inline":
@@ -1382,6 +1422,217 @@ func (env *specEnv) call(x *ast.CallExpr) (T, error) {
 			return T{}, err
 		}
 		return T{fmt.Sprint(e.typeID(t)), "Int", nil}, nil
+	case "ptval", "scval", "natval", "ctval", "wlog", "hstate":
+		// abstract (ghost) value of a group element / scalar / big number / ciphertext object
+		if err := argN(1); err != nil {
+			return T{}, err
+		}
+		a, err := env.eval(x.Args[0])
+		if err != nil {
+			return T{}, err
+		}
+		ref := a.S
+		if a.Sort == "Iface" {
+			ref = "(ival " + a.S + ")"
+		} else if a.Sort != "Int" {
+			return T{}, fmt.Errorf("%s of %s", name, a.Sort)
+		}
+		return T{"(select " + e.H(env.cur, "GV_"+name, "(Array Int Int)") + " " + ref + ")", "Int", nil}, nil
+	case "visited":
+		// visited(n, k): key k has already been produced by the map iteration of loop n
+		if err := argN(2); err != nil {
+			return T{}, err
+		}
+		lit, ok := x.Args[0].(*ast.BasicLit)
+		if !ok {
+			return T{}, fmt.Errorf("visited: first argument must be a loop ordinal")
+		}
+		ord, _ := strconv.Atoi(lit.Value)
+		k, err := env.eval(x.Args[1])
+		if err != nil {
+			return T{}, err
+		}
+		for hb, li := range f.loops {
+			if li.ord != ord {
+				continue
+			}
+			for _, ins := range hb.Instrs {
+				if nx, ok := ins.(*ssa.Next); ok {
+					if rg, ok := nx.Iter.(*ssa.Range); ok {
+						if mt, ok := rg.X.Type().Underlying().(*types.Map); ok {
+							ks := e.sortOf(mt.Key())
+							return T{"(select " + e.H(env.cur, f.visHeap(rg), "(Array "+ks+" Bool)") + " " + k.S + ")", "Bool", boolT}, nil
+						}
+					}
+				}
+			}
+		}
+		return T{}, fmt.Errorf("visited: loop %d is not a map iteration", ord)
+	case "bval":
+		// abstract content of a byte slice (function of the bytes, not of the array identity)
+		if err := argN(1); err != nil {
+			return T{}, err
+		}
+		a, err := env.eval(x.Args[0])
+		if err != nil {
+			return T{}, err
+		}
+		if a.Sort != "Slice" {
+			return T{}, fmt.Errorf("bval of %s", a.Sort)
+		}
+		e.declFun("bytesval", []string{"(Array Int Int)", "Int", "Int"}, "Int")
+		h, hs := f.elemHeap(types.Typ[types.Uint8])
+		return T{"(bytesval (select " + e.H(env.cur, h, hs) + " (sarr " + a.S + ")) (soff " + a.S + ") (slen " + a.S + "))", "Int", nil}, nil
+	case "iface":
+		// iface(x): x converted to an interface value (as the compiler does when passing x as interface{})
+		a, err := env.eval(x.Args[0])
+		if err != nil {
+			return T{}, err
+		}
+		if a.Sort == "Iface" {
+			return a, nil
+		}
+		if a.Go == nil {
+			return T{}, fmt.Errorf("iface of untyped term")
+		}
+		id := e.typeID(a.Go)
+		payload := a.S
+		switch a.Go.Underlying().(type) {
+		case *types.Pointer, *types.Map, *types.Chan, *types.Signature:
+		case *types.Basic:
+			if a.Sort != "Int" {
+				payload = f.box(a)
+			}
+		default:
+			payload = f.box(a)
+		}
+		return T{"(mk_iface " + fmt.Sprint(id) + " " + payload + ")", "Iface", types.NewInterfaceType(nil, nil)}, nil
+	case "strbval":
+		// abstract content of []byte(s)
+		a, err := env.eval(x.Args[0])
+		if err != nil {
+			return T{}, err
+		}
+		e.declFun("bytesval", []string{"(Array Int Int)", "Int", "Int"}, "Int")
+		e.declFun("strbytes", []string{"Int"}, "(Array Int Int)")
+		return T{"(bytesval (strbytes " + a.S + ") 0 (strlen " + a.S + "))", "Int", nil}, nil
+	case "byte1val":
+		// abstract content of []byte{b}
+		a, err := env.eval(x.Args[0])
+		if err != nil {
+			return T{}, err
+		}
+		e.declFun("bytesval", []string{"(Array Int Int)", "Int", "Int"}, "Int")
+		return T{"(bytesval (store ((as const (Array Int Int)) 0) 0 " + a.S + ") 0 1)", "Int", nil}, nil
+	case "abs":
+		a, err := env.eval(x.Args[0])
+		if err != nil {
+			return T{}, err
+		}
+		return T{"(ite (>= " + a.S + " 0) " + a.S + " (- " + a.S + "))", "Int", a.Go}, nil
+	case "lastbytes":
+		// lastbytes(fn): abstract content of the byte slice returned by the most recent call of fn
+		id, ok := x.Args[0].(*ast.Ident)
+		if !ok {
+			return T{}, fmt.Errorf("lastbytes: argument must be a function name")
+		}
+		return T{e.H(env.cur, "LASTB_"+id.Name, "Int"), "Int", nil}, nil
+	case "callcount":
+		id, ok := x.Args[0].(*ast.Ident)
+		if !ok {
+			return T{}, fmt.Errorf("callcount: argument must be a function name")
+		}
+		return T{e.H(env.cur, "COUNT_"+id.Name, "Int"), "Int", types.Typ[types.Int]}, nil
+	case "fold":
+		// fold(s, init, acc, x, body): left fold of body over the elements of slice s (acc, x bound);
+		// expanded for statically known short slices, otherwise an opaque function of init and the contents
+		if err := argN(5); err != nil {
+			return T{}, err
+		}
+		sv, err := env.eval(x.Args[0])
+		if err != nil {
+			return T{}, err
+		}
+		acc, err := env.eval(x.Args[1])
+		if err != nil {
+			return T{}, err
+		}
+		an, ok1 := x.Args[2].(*ast.Ident)
+		xn, ok2 := x.Args[3].(*ast.Ident)
+		stp, ok3 := sv.Go.Underlying().(*types.Slice)
+		if !ok1 || !ok2 || !ok3 {
+			return T{}, fmt.Errorf("fold: bad arguments")
+		}
+		h, hs := f.elemHeap(stp.Elem())
+		esort := e.sortOf(stp.Elem())
+		if n, ok := staticSliceLen(sv.S); ok && n <= 32 && h != "" {
+			for k := 0; k < n; k++ {
+				el := T{"(select (select " + e.H(env.cur, h, hs) + " (sarr " + sv.S + ")) (+ (soff " + sv.S + ") " + fmt.Sprint(k) + "))", esort, stp.Elem()}
+				nx, err := env.bind(an.Name, acc).bind(xn.Name, el).eval(x.Args[4])
+				if err != nil {
+					return T{}, err
+				}
+				acc = nx
+			}
+			return acc, nil
+		}
+		if h == "" {
+			return T{}, fmt.Errorf("fold over slice of structs")
+		}
+		fn := "foldopaque_" + sanitize(esort)
+		e.declFun(fn, []string{acc.Sort, "(Array Int " + esort + ")", "Int", "Int"}, acc.Sort)
+		return T{"(" + fn + " " + acc.S + " (select " + e.H(env.cur, h, hs) + " (sarr " + sv.S + ")) (soff " + sv.S + ") (slen " + sv.S + "))", acc.Sort, acc.Go}, nil
+	case "called":
+		// called(fn): the named function of this package has been called on this path
+		id, ok := x.Args[0].(*ast.Ident)
+		if !ok {
+			return T{}, fmt.Errorf("called: argument must be a function name")
+		}
+		return T{e.H(env.cur, "CALLED_"+id.Name, "Bool"), "Bool", boolT}, nil
+	case "nochange":
+		// nochange(): no modelled heap differs from its state just after the first Lock() (or at entry)
+		base := env.lock
+		if base == nil {
+			base = env.old
+		}
+		var cs []string
+		var names []string
+		for n := range e.heapSort {
+			names = append(names, n)
+		}
+		sort.Strings(names)
+		e.declFun("owner", []string{"Int"}, "Int")
+		w0 := e.H(base, "W", "Int")
+		if f.root != nil && f.root.entrySt != nil {
+			w0 = e.H(f.root.entrySt, "W", "Int") // locals allocated by this activation are not observable
+		}
+		for _, n := range names {
+			if n == "W" || n == "EXCL" || strings.HasPrefix(n, "LAST_") || strings.HasPrefix(n, "CALLED_") || strings.HasPrefix(n, "COUNT_") || strings.HasPrefix(n, "VIS_") || strings.HasPrefix(n, "LASTB_") {
+				continue
+			}
+			if e.ver(base, n) == e.ver(env.cur, n) {
+				continue
+			}
+			if !strings.HasPrefix(e.heapSort[n], "(Array Int ") {
+				cs = append(cs, eq(e.H(base, n, e.heapSort[n]), e.H(env.cur, n, e.heapSort[n])))
+				continue
+			}
+			// objects that existed then keep their contents (objects allocated since are not observable before)
+			cs = append(cs, "(forall ((fr Int)) (=> (<= (owner fr) "+w0+") (= (select "+e.H(env.cur, n, e.heapSort[n])+" fr) (select "+e.H(base, n, e.heapSort[n])+" fr))))")
+		}
+		for c := 0; c < 2; c++ {
+			if base.base[c] != env.cur.base[c] {
+				cs = append(cs, "false")
+			}
+		}
+		return T{and(cs...), "Bool", boolT}, nil
+	case "lastresult":
+		// lastresult(fn): the boolean result of the most recent call of the named function on this path
+		id, ok := x.Args[0].(*ast.Ident)
+		if !ok {
+			return T{}, fmt.Errorf("lastresult: argument must be a function name")
+		}
+		return T{e.H(env.cur, "LAST_"+id.Name, "Bool"), "Bool", boolT}, nil
 	case "isptrtype":
 		// isptrtype(tag): the dynamic type with this tag is a pointer type
 		a, err := env.eval(x.Args[0])
@@ -1484,9 +1735,15 @@ func (env *specEnv) call(x *ast.CallExpr) (T, error) {
 		if !ok {
 			return T{}, fmt.Errorf("%s: first argument must be a variable", name)
 		}
-		t, err := env.resolveType(x.Args[1])
-		if err != nil {
-			return T{}, err
+		var t types.Type
+		if tid, ok := x.Args[1].(*ast.Ident); ok && tid.Name == "integer" {
+			t = types.Typ[types.UntypedInt] // mathematical integer: no machine range
+		} else {
+			var err error
+			t, err = env.resolveType(x.Args[1])
+			if err != nil {
+				return T{}, err
+			}
 		}
 		e.nfresh++
 		vn := fmt.Sprintf("%s!q%d", id.Name, e.nfresh)
@@ -1499,7 +1756,7 @@ func (env *specEnv) call(x *ast.CallExpr) (T, error) {
 		}
 		// range facts of the bound variable (without allocation bounds)
 		rf := "true"
-		if b, ok := t.Underlying().(*types.Basic); ok && b.Info()&types.IsInteger != 0 {
+		if b, ok := t.Underlying().(*types.Basic); ok && b.Info()&types.IsInteger != 0 && b.Kind() != types.UntypedInt {
 			rf = f.facts(vn, t, env.cur)
 		}
 		if name == "forall" {
